@@ -5,6 +5,12 @@ import Nstd.Variant.DeepWalk
 namespace Nstd.Variant.Deep
 open Nstd.Variant
 
+/-- typed assignment of a temporary List / Array -/
+def setsSeq : LeafS → Bool
+  | .set (.list _) => true
+  | .set (.array _) => true
+  | _ => false
+
 /-- the operations covered by the deep refinement theorem (any nesting of the values, any path;
     copies and elements share blocks) -/
 def OpSup : Op → Prop
@@ -12,7 +18,7 @@ def OpSup : Op → Prop
   | .copy _ _ => True
   | .get _ _ _ => True
   | .swap _ _ => True
-  | .mut _ _ lf => LeafSupS lf
+  | .mut v _ lf => LeafSupS lf ∧ (setsSeq lf = true → v ∉ lf.vars)
   | _ => False
 
 theorem dgood_other {s : DState} {σ : Store} {g g' : Nat → Val} {v : Nat} {c' : Cell} {y : Val} {h' : Heap}
@@ -232,7 +238,8 @@ theorem dstep_refines (ds : DblSem) {s : DState} {σ σ' : Store} (hg : DGood s 
           · rw [upd_other _ _ _ _ euw, hoth2 u hu euw]; exact hrel u hu
     · cases hspec
   | «mut» v p lf =>
-    have hls : LeafSupS lf := hsup
+    have hls : LeafSupS lf := hsup.1
+    have hseq : setsSeq lf = true → v ∉ lf.vars := hsup.2
     simp only [specStep] at hspec
     split at hspec
     · rename_i hc
@@ -283,8 +290,8 @@ theorem dstep_refines (ds : DblSem) {s : DState} {σ σ' : Store} (hg : DGood s 
                 | set e =>
                   cases e with
                   | lit x => simp [LeafS.vars, ValS.vars] at hin
-                  | list l => exact hls
-                  | array l => exact hls
+                  | list l => exact hseq rfl hin
+                  | array l => exact hseq rfl hin
                   | map m => exact hls
                 | clear => simp [LeafS.vars] at hin
                 | touch k => simp [LeafS.vars] at hin
